@@ -179,3 +179,37 @@ func (c *Ctx) pinnedRootD(f *ssa.Function, d int) *ssa.Function {
 	}
 	return root
 }
+
+// PinnedRoots: all functions of the pinned commit that f's code belongs to (see PinnedRoot) — a helper extracted
+// since may be shared by several of them. A function with no resolvable caller stands for itself.
+func (c *Ctx) PinnedRoots(f *ssa.Function) []*ssa.Function {
+	seen := map[*ssa.Function]bool{}
+	var out []*ssa.Function
+	var walk func(g *ssa.Function, d int)
+	walk = func(g *ssa.Function, d int) {
+		r := c.Root(g)
+		if isPinnedFn(fnKey(r)) || d > 3 {
+			if !seen[r] {
+				seen[r] = true
+				out = append(out, r)
+			}
+			return
+		}
+		c.pinnedRootD(r, 0) // builds the caller index
+		callers := c.callersOf[r]
+		n := 0
+		for _, caller := range callers {
+			if c.Root(caller) == r {
+				continue
+			}
+			n++
+			walk(caller, d+1)
+		}
+		if n == 0 && !seen[r] {
+			seen[r] = true
+			out = append(out, r)
+		}
+	}
+	walk(f, 0)
+	return out
+}
